@@ -359,7 +359,7 @@ class Gen:
         dirs = ["", "sub/", "compat/", "other/"]
         taken = {f["path"] for f in self.files}
         made = []
-        for k in range(rng.choice([1, 1, 2])):
+        for k in range(rng.choice([1, 1, 1, 2])):
             tgt = rng.choice([f for f in self.files if not f.get("alias_of")])
             base = os.path.basename(tgt["path"])
             stem = base.split(".")[0]
@@ -772,7 +772,7 @@ import json as _json, os as _os, atexit as _atexit
 import ford.fortran_project as _fp
 import ford.sourceform as _sf
 _TR = {"order": [], "requests": [], "lists": {}, "forced": %(forced)r, "readers": [], "types": [],
-       "enumerated": None, "exts": None, "opened": [], "pagedirs": [], "listings": 0}
+       "enumerated": None, "exts": None, "opened": [], "pagedirs": [], "listings": 0, "sorted_lists": [], "hops": []}
 _SRC = %(srcroot)r
 _ROOT = _os.path.dirname(_SRC)
 # --- the order in which the file system enumerates a directory: every os.listdir / os.scandir below the project
@@ -986,6 +986,58 @@ if %(workaround)r:
             r[0].project_file = getattr(pf, "name", str(pf))
         return r
     _ford.parse_arguments = _pa
+# `sort:` other than src - every entity list sort_components reorders: the list before (source order, with what the
+# sort keys read of every entity) and the positions after
+_SORTED_LISTS = %(sorted_lists)r
+_orig_sc = _sf.FortranBase.sort_components
+def _vs(v):
+    return [str(getattr(v, "vartype", "") or ""), str(getattr(v, "kind", "") or ""), str(getattr(v, "strlen", "") or ""),
+            str((getattr(v, "proto", None) or [""])[0] or "")]
+def _cf(it):
+    f = [str(it.name), str(it.obj), str(getattr(it, "permission", "default"))]
+    f += _vs(it) if it.obj == "variable" else ["", "", "", ""]
+    f.append(str(getattr(it, "proctype", "") or ""))
+    rv = getattr(it, "retvar", None)
+    f += (["1"] + _vs(rv)) if (rv is not None and not isinstance(rv, str)) else ["0", "", "", "", ""]
+    return f
+def _sc(self):
+    mode = str(getattr(self.settings, "sort", "src"))
+    if mode.lower() == "src" or len(_TR["sorted_lists"]) >= 500:
+        return _orig_sc(self)
+    before = {}
+    for a in _SORTED_LISTS:
+        l = getattr(self, a, None)
+        if isinstance(l, list) and len(l) >= 2:
+            before[a] = list(l)
+    r = _orig_sc(self)
+    for a, lst in before.items():
+        try:
+            after = [next(i for i, y in enumerate(lst) if y is x) for x in getattr(self, a)]
+            _TR["sorted_lists"].append({"mode": mode, "list": a, "owner": _qual(self), "items": [_cf(x) for x in lst], "after": after})
+        except Exception as e:
+            _TR["sorted_lists"].append({"mode": mode, "list": a, "owner": _qual(self), "error": repr(e)})
+    return r
+_sf.FortranBase.sort_components = _sc
+# coloured_edges - every hop of every graph: the nodes in the order the collection hands them out, and the colour
+# add_node is given for each of them
+import ford.graphs as _gr
+_orig_an = _gr.FortranGraph.add_nodes
+def _an(self, nodes, nesting=1):
+    self.__dict__.pop("add_node", None)       # (the recorder of the hop above: its nodes have all been handled)
+    if not getattr(self.data, "coloured_edges", False) or len(_TR["hops"]) >= 400 or len(nodes) < 2:
+        return _orig_an(self, nodes, nesting)
+    calls = []
+    _TR["hops"].append({"graph": type(self).__name__, "nesting": nesting, "order": [str(n.ident) for n in nodes], "calls": calls})
+    real_add = type(self).add_node.__get__(self)
+    def _rec(hop_nodes, hop_edges, node, colour):
+        calls.append([str(node.ident), str(colour)])
+        return real_add(hop_nodes, hop_edges, node, colour)
+    self.add_node = _rec
+    try:
+        return _orig_an(self, nodes, nesting)
+    finally:
+        self.__dict__.pop("add_node", None)
+_gr.FortranGraph.add_nodes = _an
 def _dump():
     with open(%(tracefile)r, "w") as fh:
         _json.dump(_TR, fh)
@@ -1055,6 +1107,7 @@ def run_ford(pf, hashseed=None, extra_args=(), shim=None):
 
 
 RUN_TIMEOUT_S = 100
+SORTED_LISTS: list = []        # the entity lists sort_components sorts (generated table; set by run())
 
 
 def one_run(job):
@@ -1091,7 +1144,7 @@ def one_run(job):
     tracefile = d / "trace.json"
     shim = SHIM % {"forced": run["order"], "srcroot": str(d / "src"), "tracefile": str(tracefile),
                    "workaround": bool(run.get("workaround")), "fsorder": run.get("fsorder"),
-                   "clock": int(run.get("clock") or 0)}
+                   "clock": int(run.get("clock") or 0), "sorted_lists": list(SORTED_LISTS)}
     fs_before = sorted(os.path.relpath(os.path.join(w, f), d) for w, _ds, fs_ in os.walk(d) for f in fs_)
     rc, log = run_ford(pf, hashseed=run["hashseed"], extra_args=extra, shim=shim)
     res = {"id": rid, "rc": rc, "log": (log_pre + log)[-1500:], "wall": time.time() - t0, "fs_before": fs_before,
@@ -1859,6 +1912,7 @@ def run(tier: str, seed: int, replay: str | None = None) -> int:
     variant = drv.call("c12.variant")
     out_cfg_excluded = dict(tables.get("outputDirExcludedIn") or [])
     n_micro = 1500 if tier == "quick" else 15000
+    SORTED_LISTS[:] = list(tables.get("sortedComponentLists") or [])
 
     with common.scratch_dir("ford-verif-c12-") as scratch:
         def guarded(name, fn, *a):
@@ -1905,8 +1959,9 @@ def run(tier: str, seed: int, replay: str | None = None) -> int:
             # round 6 (random stream of its own): a call tree with a wide second hop; in projects that are not
             # "clean", source files reachable under a second path (symbolic links)
             rng6 = random.Random(seed * 7001 + pi)
-            call_tree = g.add_call_tree(rng6) if rng6.random() < 0.75 else 0
-            aliases = g.add_aliases(rng6) if (not clean and rng6.random() < 0.6) else []
+            coloured = pi % 3 != 2 and pi % 2 == 0        # (graph: true and coloured_edges: true, see below)
+            call_tree = g.add_call_tree(rng6) if (rng6.random() < 0.9 and coloured) else 0
+            aliases = g.add_aliases(rng6) if (not clean and rng6.random() < 0.5) else []
             options = {"graph": "true" if pi % 3 != 2 else "false",
                        "search": "true" if (pi % 3 == 1) else "false",
                        "incl_src": "true" if pi % 5 != 4 else "false"}
@@ -1922,7 +1977,7 @@ def run(tier: str, seed: int, replay: str | None = None) -> int:
             if options["graph"] == "true" and pi % 2 == 1 or pi % 6 == 0:
                 options["graph"] = "true"
                 options["graph_dir"] = out_rel + "/graphs"
-            if options["graph"] == "true" and pi % 2 == 0:
+            if options["graph"] == "true" and coloured:
                 options["coloured_edges"] = "true"
             if g.inc_dirs:
                 options["include"] = ["./" + d for d in g.inc_dirs]
@@ -1990,6 +2045,9 @@ def run(tier: str, seed: int, replay: str | None = None) -> int:
         find_reqs, find_ctx = [], []
         kind_reqs, kind_ctx = [], []
         page_reqs, page_ctx = [], []
+        sc_reqs, sc_ctx = [], []
+        hop_reqs, hop_ctx = [], []
+        run_wall: dict = {}
         for proj in projects:
             pi = proj["index"]
             feat = proj["features"]
@@ -2035,6 +2093,10 @@ def run(tier: str, seed: int, replay: str | None = None) -> int:
             for r in proj["runs"]:
                 rr = res.get(r["id"])
                 n_runs += 1
+                wk = "alias" if feat.get("aliases") else ("call tree, coloured" if feat.get("call_tree_width") else "other")
+                run_wall.setdefault(wk, [0, 0.0])
+                run_wall[wk][0] += 1
+                run_wall[wk][1] = round(run_wall[wk][1] + ((rr or {}).get("wall") or 0.0), 1)
                 hist["run: " + r["regime"]] = hist.get("run: " + r["regime"], 0) + 1
                 hist[f"run: stale={r['stale']}"] = hist.get(f"run: stale={r['stale']}", 0) + 1
                 hist[f"run: parallel={r['parallel']}"] = hist.get(f"run: parallel={r['parallel']}", 0) + 1
@@ -2088,6 +2150,21 @@ def run(tier: str, seed: int, replay: str | None = None) -> int:
                 number_reqs.append(["c12.number", *fields])
                 number_exp.append(e)
                 number_ctx.append((pi, r["id"]))
+                # --- `sort:` - every entity list sort_components reordered, from its source order
+                for rec in tr.get("sorted_lists", []):
+                    if "error" in rec:
+                        rep.tie_broken(f"e2e/sortcomp (project {pi} run {r['id']}): {rec}")
+                        continue
+                    sc_reqs.append(["c12.sortcomp", rec["mode"]] + [x for i, it in enumerate(rec["items"]) for x in [str(i), *it]])
+                    sc_ctx.append((pi, r, rec))
+                # --- coloured_edges - the colour number every node of a hop was given, from the iteration order
+                for hop in tr.get("hops", []):
+                    if len(set(hop["order"])) != len(hop["order"]):
+                        hist["graph hop: a node twice in the collection (not corresponded)"] = \
+                            hist.get("graph hop: a node twice in the collection (not corresponded)", 0) + 1
+                        continue
+                    hop_reqs.append(["c12.colours"] + [x for i in hop["order"] for x in (i, i)])
+                    hop_ctx.append((pi, r, hop))
                 # --- which files are read (find_all_files on the files that were on disk when the run started)
                 #     and as what each of them is opened (preprocessed? fixed form?)
                 if tr.get("enumerated") is not None and tr.get("exts"):
@@ -2291,6 +2368,29 @@ def run(tier: str, seed: int, replay: str | None = None) -> int:
                                f"the model (listing sorted by name, ordered_subpage first) says {want}",
                                {"stream": "e2e/pages", "run": r, "directory": rel, "listing": rec["listing"],
                                 "ordered_subpage": pg.dirs[rel]["ordered"], "impl": real, "model": g_})
+        got = drv.batch(sc_reqs)
+        for (pi, r, rec), g_ in zip(sc_ctx, got):
+            keys_tie = "sorted list: " + rec["mode"].lower()
+            hist[keys_tie] = hist.get(keys_tie, 0) + 1
+            if g_ != ["ok"] + [str(i) for i in rec["after"]]:
+                bad_tr += 1
+                rep.tie_broken(f"correspondence e2e/sortcomp (project {pi} run {r['id']}, sort: {rec['mode']}): `{rec['list']}` of "
+                               f"{rec['owner']} after sort_components is {rec['after']} (positions in source order); the model says {g_[1:]}",
+                               {"stream": "e2e/sortcomp", "run": r, "record": rec, "model": g_})
+        got = drv.batch(hop_reqs)
+        for (pi, r, hop), g_ in zip(hop_ctx, got):
+            pal = T.palette(len(hop["order"]))
+            try:
+                want = ["ok"] + [x for i, c in hop["calls"] for x in (i, str(pal.index(c)))]
+            except ValueError:
+                want = ["colour that is no colour number of the hop", hop["calls"]]
+            hk = f"graph hop (e2e): {min(len(hop['order']), 4)}{'+' if len(hop['order']) >= 4 else ''} nodes"
+            hist[hk] = hist.get(hk, 0) + 1
+            if g_ != want:
+                bad_tr += 1
+                rep.tie_broken(f"correspondence e2e/colours (project {pi} run {r['id']}, hash seed {r['hashseed']}): hop {hop['nesting']} of a "
+                               f"{hop['graph']} iterated as {hop['order'][:6]}: colour numbers {want[1:13]}; the model says {g_[1:13]}",
+                               {"stream": "e2e/colours", "run": r, "hop": hop, "model": g_})
         got = drv.batch(site_reqs)
         n_site = 0
         for (proj, r, rr, ent_of), g in zip(site_ctx, got):
@@ -2374,7 +2474,8 @@ def run(tier: str, seed: int, replay: str | None = None) -> int:
              "hash seed, parallel, prior state of the output directory)",
         samples=samples,
         traces_validated_against_impl=ev_s + ev_n + ev_f + ev_k + ev_o + len(number_reqs) + n_site + len(inc_reqs) + len(inh_reqs)
-        + len(find_reqs) + len(kind_reqs) + len(page_reqs),
+        + len(find_reqs) + len(kind_reqs) + len(page_reqs) + len(sc_reqs) + len(hop_reqs),
+        run_wall_s_by_project_kind=run_wall, sorted_entity_lists_corresponded_e2e=len(sc_reqs), graph_hops_coloured_corresponded_e2e=len(hop_reqs),
         file_sets_corresponded=len(find_reqs), files_opened_corresponded=len(kind_reqs),
         include_lines_corresponded=len(inc_reqs), derived_type_lists_corresponded=len(inh_reqs),
         page_directories_corresponded=len(page_reqs),
